@@ -22,6 +22,9 @@ def call_op(op, has_t, d, polys, pt, nus):
     if op == "divergence":
         return [float(jinns.loss._div_rev(t, x, u, P))]
     if op == "vector_laplacian":
+        if len(polys) == d and (len(pt) + len(polys)) % 2 == 0:
+            # as many components as space dimensions: the optional component count may be left unset
+            return [float(v) for v in np.asarray(jinns.loss._vectorial_laplacian(t, x, u, P)).ravel()]
         return [float(v) for v in np.asarray(jinns.loss._vectorial_laplacian(t, x, u, P, u_vec_ndim=len(polys))).ravel()]
     # advection through the Navier-Stokes residual with p = 0, rho = 1, nu = 0
     p = mk([{(0,) * d: 0}], "statio_PDE")
